@@ -4,7 +4,11 @@ and record which checks/rules caught it in the seed's meta.json and in seeded/RE
 import json, os, re, subprocess, sys, glob
 V = '/verif'
 claimed = [c['property_id'] for c in json.load(open(V + '/MANIFEST.json'))['checks']]
-only = sys.argv[1:]
+only = [a for a in sys.argv[1:] if not a.startswith('--')]
+# the changes are applied to a scratch worktree of /repo (never to /repo itself), removed at the end
+WT = '/tmp/eval-seeds-wt'
+subprocess.run(['git', '-C', '/repo', 'worktree', 'remove', '--force', WT], capture_output=True)
+subprocess.run(['git', '-C', '/repo', 'worktree', 'add', '--detach', WT, 'HEAD'], check=True, capture_output=True)
 rows = []
 for d in sorted(glob.glob(V + '/seeded/*/')):
     name = os.path.basename(d.rstrip('/'))
@@ -12,26 +16,27 @@ for d in sorted(glob.glob(V + '/seeded/*/')):
         continue
     patch = d + 'patch.diff'
     meta = json.load(open(d + 'meta.json')) if os.path.exists(d + 'meta.json') else {}
-    if subprocess.run(['git', '-C', '/repo', 'apply', patch]).returncode != 0:
+    if subprocess.run(['git', '-C', WT, 'apply', patch]).returncode != 0:
         meta['detected_by'] = 'patch does not apply to the current /repo'
         json.dump(meta, open(d + 'meta.json', 'w'), indent=1)
         continue
     det = {}
     try:
         for p in claimed:
-            r = subprocess.run(['./check', p, '--tier', 'quick', '--no-evidence'], cwd=V, capture_output=True, text=True)
+            r = subprocess.run(['./check', p, '--tier', 'quick', '--no-evidence', '--repo', WT], cwd=V, capture_output=True, text=True)
             rules = sorted(set(re.findall(r'rule (R[0-9.]+) \[(\w+)\] instance "([^"]+)"', r.stdout)))
             if r.returncode == 1:
                 det[p] = ['%s %s (%s)' % (a, c, b) for a, b, c in rules][:8]
             elif r.returncode != 0:
                 det[p] = ['exit %d (no verdict)' % r.returncode]
     finally:
-        subprocess.run('git -C /repo checkout -- . && git -C /repo clean -fdq -e target', shell=True)
+        subprocess.run('git -C %s checkout -- . && git -C %s clean -fdq' % (WT, WT), shell=True)
     meta['detected_by'] = det
     meta['own_property_detected'] = meta.get('property') in det
     json.dump(meta, open(d + 'meta.json', 'w'), indent=1)
     rows.append((name, meta.get('property'), det))
     print(name, '->', {k: len(v) for k, v in det.items()})
+subprocess.run(['git', '-C', '/repo', 'worktree', 'remove', '--force', WT], capture_output=True)
 with open(V + '/seeded/RESULTS.md', 'a' if only else 'w') as fh:
     if not only:
         fh.write('# Seeded changes vs. checks (quick tier, applied to /repo and undone)\n\n| seed | property | caught by (check: rule instances) |\n|---|---|---|\n')
